@@ -95,6 +95,12 @@ def gen_cases(rng: random.Random, count: int):
                                           {'sts': 'REMAINING', 'mts': names[k:]}])
         if len(cases) % 3 == 0:
             enc['copyright'] = rng.choice(['© é ü 漢字', 'naïve\n\u2028sep', 'Ünïcødé ✓'])
+        if len(cases) % 5 == 3:
+            # sizes beyond the usual: long prefix, one-line notice, creator text - and a model
+            # file whose base name (plus suffix) goes beyond 96 / 255 characters
+            cfggen.enlarge(rng, enc)
+            if len(cases) % 10 == 3:
+                enc['filename'] = 'VeryLongModelFileName' * 13 + '.dzn'
         doc = M.to_json(gen.model)
         if len(cases) % 3 == 1:
             # text outside ASCII inside the model itself (the C++ type an extern stands for)
@@ -121,8 +127,9 @@ def prepare_ambient(kind: str, cases, root: str):
         os.makedirs(os.path.join(cwd, 'store'), exist_ok=True)
         for idx, case in enumerate(cases):
             name = case['cfg'].get('filename', '')
-            if not name or os.path.isabs(name) or name.endswith('/'):
-                continue
+            if not name or os.path.isabs(name) or name.endswith('/') or \
+                    any(len(part.encode('utf-8')) > 250 for part in name.split('/')):
+                continue        # (no file system holds a name that long)
             # create the directories the relative name walks through, '..' included
             here = cwd
             parts = name.split('/')
@@ -201,6 +208,7 @@ def main(tier: str) -> int:
             kind_of[(hs, jobs[-1][2])] = kind
     reference = {}
     run.require('executions_compared', 'md5_recomputed', 'cases_with_non_ascii_contents',
+                'cases_of_big_size', 'cases_with_an_output_name_beyond_255_characters',
                 'cases_with_non_ascii_text_in_the_model', 'children_loading_the_model_from_a_file',
                 'cases_with_relative_model_filename', 'cases_with_mixed_requires_semantics',
                 'children_with_one_builder_for_all_cases', 'cases_that_are_a_second_revision_of_another',
@@ -253,6 +261,8 @@ def main(tier: str) -> int:
     run.count('cases_with_mixed_requires_semantics', sum(1 for c in cases if mixed_requires(c)))
     run.count('cases_with_relative_model_filename',
               sum(1 for c in cases if c['cfg'].get('filename') and not os.path.isabs(c['cfg']['filename'])))
+    run.count('cases_of_big_size', sum(1 for c in cases if c['cfg'].get('big')))
+    run.count('cases_with_an_output_name_beyond_255_characters', sum(1 for c in cases if len(os.path.basename(c['cfg'].get('filename', ''))) > 255))
     run.count('cases_with_non_ascii_contents', sum(1 for c in cases if not c['cfg']['copyright'].isascii()))
     run.count('cases_with_non_ascii_text_in_the_model', sum(1 for c in cases if not json.dumps(c['doc'], ensure_ascii=False).isascii()))
     run.count('children_loading_the_model_from_a_file', sum(1 for j in jobs if j[4].get('VERIF_MODEL_FROM_FILE')))
